@@ -602,6 +602,7 @@ func c10RowsHpke() []*kit.Row {
 	rows = append(rows, c10HpkeContextRows()...)
 	rows = append(rows, c10HpkeSetupRows()...)
 	rows = append(rows, c10HpkeOpenRows()...)
+	rows = append(rows, c10HpkeLifeRows()...) // zz_verif_c10_rows_hpkelife_test.go
 	return rows
 }
 
